@@ -38,9 +38,65 @@ def thread_prog(rng, u, nacq, allow_panic, data_ops, only=None, sh=0.35, sweep=0
     return ops
 
 
+def gen_c08(tier, rng, n):
+    """threads take sorting collections that list the same RwLock-heavy leaves in different orders, in both modes, while
+    others hold single leaves: members are contended in the middle of an acquisition"""
+    scens = []
+    for i in range(n):
+        b = shapes.B(f"c08b_{i}")
+        rw = rng.random() < 0.7
+        leaves = [b.leaf("R" if rw or rng.random() < 0.4 else "M") for _ in range(rng.randint(2, 4))]
+        roots = []
+        for _ in range(rng.randint(2, 3)):
+            ms = rng.sample(leaves, rng.randint(2, len(leaves)))
+            if rng.random() < 0.25 and len(ms) >= 3:
+                # a nested boxed / ref / retrying member contributes its leaves to the outer order
+                inner = b.coll(rng.choice(["boxed", "ref", "retry"]), ms[:2], cont="vec")
+                ms = [inner] + ms[2:]
+            c = b.coll(rng.choice(["boxed", "ref"]), ms, cont=rng.choice(shapes.CONTS))
+            if dict(b.defs)[c][3] == "vec" and rng.random() < 0.3:
+                c = b.poison(c)      # the harness wraps Vec-based collections only
+            roots.append(c)
+        nt = rng.randint(2, 4)
+        progs = []
+        for t in range(nt):
+            ops = []
+            for _ in range(rng.randint(1, 3)):
+                ops.append(("get",))
+                if rng.random() < 0.35:
+                    cid = rng.choice(leaves)
+                    mode = "ex" if rng.random() < 0.75 or not b.sharable[cid] else "sh"
+                else:
+                    cid = rng.choice(roots)
+                    mode = "sh" if b.sharable[cid] and rng.random() < 0.6 else "ex"
+                if rng.random() < 0.7:
+                    ops += [("acq", cid, mode, "guard"), (rng.choice(["gdrop", "gunlock"]),)]
+                else:
+                    nl = len(b.locks_of[cid])
+                    ops.append(("acq", cid, mode, "scoped", rng.random() < 0.6, [("r", rng.randrange(nl))] if nl else []))
+            progs.append((t, ops))
+        total = sum(len(p) for _, p in progs)
+        sched = [rng.randrange(nt) for _ in range(rng.randint(total, 4 * total + 4))]
+        if rng.random() < 0.3:
+            sched = []
+            while len(sched) < 3 * total:
+                sched += [rng.randrange(nt)] * rng.randint(1, 6)
+        pol = "wp" if rng.random() < 0.5 else "rp"
+        sc_ = b.scen(progs=progs, sched=(pol, sched, None), fuel=len(sched) + 4 * total + 8,
+                     meta={"nt": nt, "policy": pol, "pct": False, "roots": [b.desc[c] for c in roots]})
+        if rng.random() < 0.25:
+            sc_.yr = True
+            sc_.fuel = 2 * sc_.fuel
+            sc_.meta["yield_after_release"] = True
+        scens.append(sc_)
+    return scens
+
+
 def gen(pid, tier, rng, n=None):
     scens = []
     n = n or COUNT[tier]
+    if pid == "C08":
+        return gen_c08(tier, rng, n)
     for i in range(n):
         b = shapes.B(f"{pid.lower()}_{i}")
         u = histgen.Universe(rng, b, nleaves=(2, 5), ncolls=(1, 4), poison=0.9 if pid == "C10" else 0.25,
